@@ -52,6 +52,7 @@ fn main() {
     "C07" => dispatch!(props::c07::C07),
     "C08" => dispatch!(props::c08::C08),
     "C09" => dispatch!(props::c09::C09),
+    "C10" => dispatch!(props::c10::C10),
     "C11" => dispatch!(props::c11::C11),
     "C13" => dispatch!(props::c13::C13),
     "C14" => dispatch!(props::c14::C14),
